@@ -158,10 +158,11 @@ def count_implicit_sites(text):
 
 
 class Session:
-    def __init__(self, repo, tier, use_cache=True):
+    def __init__(self, repo, tier, use_cache=True, canary=True):
         self.repo = repo
         self.tier = tier
         self.use_cache = use_cache
+        self.want_canary = canary and os.environ.get("VX_NO_CANARY") != "1"
         self.t0 = time.time()
         self.solo_retries = []
 
@@ -308,6 +309,10 @@ class Session:
             msgs = "; ".join(o["message"][:200] for o in other[:3]) or "vir error"
             raise Undecided("verifier rejected the generated file (construct outside the subset or contract file error): " + msgs)
         # canary run
+        if not self.want_canary:
+            self.canary, self.canary_missing, self.canaries_failed = None, [], 0
+            self.canaries = {}
+            return
         cpath = os.path.join(self.dir, "gen_canary.rs")
         open(cpath, "w").write(self.canary_text())
         cres = self.cached("canary", lambda: run_verus(cpath, 10))
@@ -377,7 +382,7 @@ def failed_for(sess, prop):
     return out
 
 
-def write_evidence(sess, prop, tier, failed, known, undecided=None, wall=0.0, kani=None):
+def write_evidence(sess, prop, tier, failed, known, undecided=None, wall=0.0, kani=None, selftest=None):
     os.makedirs(EVID, exist_ok=True)
     labelled, fns, implicit = obligations_for(sess, prop) if sess and hasattr(sess, "lines") else ([], [], {})
     n_lab = len(labelled)
@@ -418,6 +423,7 @@ def write_evidence(sess, prop, tier, failed, known, undecided=None, wall=0.0, ka
             known_findings_reported=known,
             undecided=undecided,
             resource_limit_retries=getattr(sess, "solo_retries", []),
+            mutation_self_test=selftest,
             kani=kani,
             extraction_log=sess.sp.log[:80] if sess and hasattr(sess, "sp") else [],
         ),
@@ -475,6 +481,46 @@ def decide(prop, sess, tier):
         else:
             new.append(f)
     return new, sorted(set(reported)), failed
+
+
+def selftest_for(prop, repo):
+    """thorough tier: the check of `prop` must still tell the kept property-breaking changes of that property (seeded/*/patch.diff,
+    selftest/unfix_*.patch) from the tree under test: each is applied to a scratch copy of the tree's src/ (never to the tree itself),
+    the same extraction + Verus run is repeated on it, and an obligation of `prop` has to fail.  A change that does not apply to the
+    tree under test is skipped."""
+    import tempfile
+    rows = []
+    cands = []
+    sd = os.path.join(VERIF, "seeded")
+    for d in sorted(os.listdir(sd)) if os.path.isdir(sd) else []:
+        mp = os.path.join(sd, d, "meta.json")
+        if os.path.exists(mp) and json.load(open(mp)).get("property") == prop:
+            cands.append((d, os.path.join(sd, d, "patch.diff")))
+    ux = os.path.join(VERIF, "selftest", "unfix.json")
+    if os.path.exists(ux):
+        for e in json.load(open(ux)):
+            if prop in e["properties"]:
+                cands.append((e["id"], os.path.join(VERIF, "selftest", e["patch"])))
+    for name, patch in cands:
+        tmp = tempfile.mkdtemp(prefix="vx_selftest_")
+        try:
+            shutil.copytree(os.path.join(repo, "src"), os.path.join(tmp, "src"))
+            r = sh(["patch", "-p1", "-s", "--no-backup-if-mismatch", "-i", patch], cwd=tmp)
+            if r.returncode != 0:
+                rows.append(dict(change=name, applied=False, detected=None))
+                continue
+            ss = Session(tmp, "quick", use_cache=True, canary=False)
+            try:
+                ss.prepare()
+                ss.verify()
+                f = failed_for(ss, prop)
+                rows.append(dict(change=name, applied=True, detected=bool(f), failed=[x["label"] or "implicit" for x in f][:3],
+                                 undecided=("resource limit" if (ss.rlimit and not f) else None)))
+            except Undecided as e:
+                rows.append(dict(change=name, applied=True, detected=False, undecided=str(e)[:200]))
+        finally:
+            shutil.rmtree(tmp, ignore_errors=True)
+    return rows
 
 
 def esc_bytes(bs):
@@ -567,7 +613,19 @@ def main():
                 continue
         for r in reported:
             print(r)
-        write_evidence(sess, p, tier, failed + [f for f in new if f not in failed], reported, wall=time.time() - t0, kani=kani)
+        st = None
+        if tier == "thorough" and not new:
+            st = selftest_for(p, a.repo)
+            missed = [r for r in st if r["applied"] and not r["detected"]]
+            if missed:
+                # the check has lost discriminating power it is recorded to have: its verdict is not to be relied on
+                print("UNDECIDED property=%s reason=self-test: kept property-breaking change(s) %s no longer fail an obligation of %s" %
+                      (p, [m["change"] for m in missed], p))
+                write_evidence(sess, p, tier, [], [], undecided="self-test missed %s" % [m["change"] for m in missed],
+                               wall=time.time() - t0, kani=kani, selftest=st)
+                rc = max(rc, 2)
+                continue
+        write_evidence(sess, p, tier, failed + [f for f in new if f not in failed], reported, wall=time.time() - t0, kani=kani, selftest=st)
         if new:
             path = replay_file(p, sess, new)
             has_cex = any(f.get("counterexample") for f in new)
